@@ -233,11 +233,6 @@ func (_this *RulesEventReceiver) OnTime(value compact_time.Time) {
 	if err := value.Validate(); err != nil {
 		panic(err)
 	}
-	if value.Type != compact_time.TimeTypeTime && value.Year == 0 {
-		// Validate() lets year 0 pass, but no decoder reads it back
-		// (a Go time.Time in its year 0, i.e. 1 BC, arrives like this).
-		panic(fmt.Errorf("Year cannot be 0"))
-	}
 	if value.Timezone.Type == compact_time.TimezoneTypeAreaLocation {
 		_this.context.ValidateAreaLocation(value.Timezone.LongAreaLocation)
 	}
